@@ -143,6 +143,15 @@ def gen_history(rng, length):
         {"op": "create", "kind": last[1], "path": "solo.bin", "out": f"solo{counter}.torrent", "pl": 16384},
         {"op": "rebuild", "metas": [f"solo{counter}.torrent"], "contents": ["."], "dest": f"sdest{counter}"},
         {"op": "rebuild", "metas": [f"solo{counter}.torrent"], "contents": ["."], "dest": f"sdest{counter}"},
+        {"op": "create", "kind": last[1], "path": "p", "out": f"k{counter}.torrent", "pl": 16384,
+         "opts": {"comment": "key-AAAA", "announce": ["http://t/pk-1111/a"]}},
+        {"op": "magnet", "meta": f"k{counter}.torrent"},
+        {"op": "edit", "meta": f"k{counter}.torrent", "req": {"comment": "key-BBBB", "announce": ["http://t/pk-2222/a"]}},
+        {"op": "magnet", "meta": f"k{counter}.torrent"},
+        {"op": "edit", "meta": f"e{counter}b.torrent", "req": {"comment": "key-AAAA", "announce": ["http://t/pk-1111/a"]}},
+        {"op": "magnet", "meta": f"e{counter}b.torrent"},
+        {"op": "edit", "meta": f"e{counter}b.torrent", "req": {"comment": "key-BBBB", "announce": ["http://t/pk-2222/a"]}},
+        {"op": "magnet", "meta": f"e{counter}b.torrent"},
         {"op": "edit", "cli": True, "flags": [], "meta": f"e{counter}a.torrent",
          "req": {"comment": "only a comment " + str(counter)}},
         {"op": "edit", "cli": True, "flags": [], "meta": f"e{counter}b.torrent",
